@@ -518,3 +518,23 @@ m('M34d', 'C13', 'C13.one-step', 'iterator.h',
         _next = _gen->next();
         return z;""", """        storage z{std::move(_gen->value())};
         return z;""", 'postfix ++ does not advance')
+m('M35', 'C14', 'C14.retire-or-rearm', 'generator_aggregator.h',
+  """                exp = std::current_exception();
+                cnt.fin();""", """                exp = std::current_exception();""", 'catch does not retire the source')
+m('M36', 'C14', 'C14.charge-each-once', 'generator_aggregator.h',
+  "    cbs.reserve(list__.size());", "", 'no reserve: callbacks relocate')
+m('M36b', 'C14', 'C14.drain', 'generator_aggregator.h',
+  """        while (_count>1) {
+            _queue.pop().wait();
+            _count--;
+        }""", """        if (_count>1) {
+            _queue.pop().wait();
+            _count--;
+        }""", 'drain waits for one source only')
+m('M36c', 'C14', 'C14.retire-or-rearm', 'generator_aggregator.h',
+  """        if (g.done()) {
+            cnt.fin();
+        } else {""", """        if (g.done()) {
+        } else {""", 'finished source not counted out')
+m('M36d', 'C14', 'C14.callback-enqueues-once', 'generator_aggregator.h',
+  "        _gen.next(std::forward<Args>(args)...).subscribe(this);", "        (void)_gen.next(std::forward<Args>(args)...);", 'charge does not subscribe')
